@@ -114,6 +114,17 @@ def present(vals, fmt, scale=None):
         for i, nm in enumerate(names):
             back.setdefault(nm, []).append(i + 1)
         return names, (lambda nm: int(nm[1:])), back
+    if fmt in ("falsydict", "emptystr"):
+        # names that are FALSY python objects: the integer 0 / the empty string is the name of the largest item (and, for falsydict, small integers
+        # name the others by descending value) - an `if item:` where `if item is not None:` is meant goes wrong exactly here
+        order = sorted(range(n), key=lambda i: (-vv[i], i))
+        names = [None] * n
+        for r, i in enumerate(order):
+            names[i] = r if fmt == "falsydict" else ("" if r == 0 else name_of(i + 1))
+        d = {names[i]: vv[i] for i in range(n)}
+        assert len(d) == n
+        back = {names[i]: i + 1 for i in range(n)}
+        return d, None, back
     if fmt == "iddict":   # dict keyed by the ids themselves (used when values and names must be told apart cheaply)
         d = {i + 1: vv[i] for i in range(n)}
         return d, None, {i + 1: i + 1 for i in range(n)}
@@ -557,16 +568,23 @@ def run_obj(st):
                 for flag in ((0, 1) if issorted else (0,)):
                     ev = {"o": o, "kp": kp, "w": [], "cont": cname, "sorted": flag, "out": "ret", "num": 0, "den": 0}
                     try:
-                        v = objective(o, kp).value_to_minimize(mk(s), are_sums_in_ascending_order=bool(flag)) if flag else objective(o, kp).value_to_minimize(mk(s))
+                        c = mk(s)
+                        v = objective(o, kp).value_to_minimize(c, are_sums_in_ascending_order=bool(flag)) if flag else objective(o, kp).value_to_minimize(c)
                         ev["num"], ev["den"] = _rat(v, 1)
+                        if [x for x in c] != list(s):
+                            # the caller's sums were reordered / changed: the next objective evaluated on the same sums no longer sees the vector it was given
+                            ev["out"] = "bad:the_sums_given_were_modified_by_the_call"
                     except Exception as e:
                         ev["out"] = outcome_of_exception(e)
                     res.append(ev)
         for w in st.get("wlist", []):
             ev = {"o": "wminsum", "kp": 0, "w": list(w), "cont": cname, "sorted": 0, "out": "ret", "num": 0, "den": 0}
             try:
-                v = obj.MaximizeSmallestWeightedSum(list(w)).value_to_minimize(mk(s))
+                c = mk(s)
+                v = obj.MaximizeSmallestWeightedSum(list(w)).value_to_minimize(c)
                 ev["num"], ev["den"] = _rat(v, max(w))
+                if [x for x in c] != list(s):
+                    ev["out"] = "bad:the_sums_given_were_modified_by_the_call"
             except Exception as e:
                 ev["out"] = outcome_of_exception(e)
             res.append(ev)
@@ -592,7 +610,10 @@ def run_bound(st):
             for flag, p in [(1, perms[0])] + [(0, p) for p in perms]:
                 ev = {"o": o, "flag": flag, "cont": cname, "p": p, "out": "ret", "v": 0, "exact": True}
                 try:
-                    v = ob.lower_bound(mk(p), R, are_sums_in_ascending_order=bool(flag))
+                    c = mk(p)
+                    v = ob.lower_bound(c, R, are_sums_in_ascending_order=bool(flag))
+                    if [x for x in c] != list(p):
+                        ev["out"] = "bad:the_sums_given_were_modified_by_the_call"
                     iv = exact_int(v)
                     if iv is None:
                         ev["exact"] = False
@@ -671,6 +692,15 @@ def _proj(binner, arr, contents):
         if contents and binner.numitems(arr, i) != len(c):
             s = None
         outl.append({"s": -999999 if s is None else s, "c": c})
+    # the raw array must not hold more (or fewer) content lists than sums: an operation that grows an argument's list component in place
+    # is invisible through numbins() / sums() but has altered the argument all the same
+    if contents:
+        try:
+            extra = len(arr[1]) - nb
+        except Exception:
+            extra = 0
+        if extra != 0:
+            outl.append({"s": -999999, "c": []})
     return outl
 
 
